@@ -446,16 +446,26 @@ theorem c07_shapeFields_ne_nil (S : StrFns) (L : List Mapper) :
     | scalar n o => exact ⟨_, _, by simp [shapeFields, shapeFld]; exact ⟨rfl, rfl⟩⟩
     | nested n o sh own fs' => exact ⟨_, _, by simp [shapeFields, shapeFld]; exact ⟨rfl, rfl⟩⟩
 
-/-- the mapper the deserializer resolves for a nested class that is handed the shape list of `L` -/
-theorem c07_nested_aggregate (S : StrFns) (L own : List Mapper) (fs : List Fld) (hne : fs ≠ [])
-    (h : reaggOK S L fs = true) :
-    aggregate S false own fs (some (shapeFields S L fs)) false = shapeFields S L fs := by
+/-- the mapper the deserializer resolves for a nested class that is handed the shape list of `L`:
+    the same shape list, with one more `TO_CAMELCASE` round under `camel_case_convert` -/
+theorem c07_nested_aggregate (S : StrFns) (L own : List Mapper) (fs : List Fld) (camel : Bool)
+    (hne : fs ≠ []) (h : reaggOK S L fs = true)
+    (hc : mkeysNodup (shapeFields S (L ++ camelTail camel) fs) = true) :
+    aggregate S false own fs (some (shapeFields S L fs)) camel
+      = shapeFields S (L ++ camelTail camel) fs := by
   obtain ⟨e, d, hed⟩ := c07_shapeFields_ne_nil S L fs hne
   have := c07_reagg S L fs h
   rw [hed] at this
-  simp only [aggregate, hed, effList, Bool.false_eq_true, if_false, List.append_nil, foldAdd,
-    List.foldl_cons, List.foldl_nil]
-  exact this
+  cases camel with
+  | false =>
+    simp only [aggregate, hed, effList, Bool.false_eq_true, if_false, List.append_nil, foldAdd,
+      List.foldl_cons, List.foldl_nil, camelTail]
+    exact this
+  | true =>
+    simp only [aggregate, hed, effList, if_true, foldAdd, List.cons_append, List.nil_append,
+      List.foldl_cons, List.foldl_nil, camelTail] at hc ⊢
+    rw [this, ← hed, c07_add_shapeFields S L .camel rfl fs]
+    exact c07_norm_of_nodup _ hc
 
 /-! ### `Sync` at every level inside the region -/
 
@@ -531,25 +541,6 @@ theorem c07_nestedOK_mono (opt : Bool) (shape : Shape) (g g' : J → Bool)
       simp only [nestedOK, List.all_eq_true] at hv ⊢
       exact fun y hy => h y (hv y hy)
 
-theorem c07_regionNested_of_reaggF (S : StrFns) (L : List Mapper) (full : List Fld) (f : Fld)
-    (h : reaggF S L full f = true) : regionNested S L f = true := by
-  cases f with
-  | scalar n o => rfl
-  | nested n o sh own fs =>
-    obtain ⟨hown, htrack, _, hne, hpre, hnod, hrec⟩ := c07_reaggF_nested h
-    subst hown
-    have : fs.isEmpty = false := by cases fs with | nil => exact absurd rfl hne | cons a b => rfl
-    simp [regionNested, htrack, this, hpre, reaggOK, hnod, hrec]
-
-theorem c07_reaggFs_mem (S : StrFns) (L : List Mapper) (full : List Fld) :
-    ∀ sub : List Fld, reaggFs S L full sub = true → ∀ f ∈ sub, reaggF S L full f = true
-  | [], _, _, h => by cases h
-  | g :: sub, hr, f, h => by
-    simp only [reaggFs, and_true_iff'] at hr
-    rcases List.mem_cons.mp h with h | h
-    · subst h; exact hr.1
-    · exact c07_reaggFs_mem S L full sub hr.2 f h
-
 theorem c07_subDeser_shape (S : StrFns) (L : List Mapper) (full : List Fld) (n : String) (o : Bool)
     (sh : Shape) (own : List Mapper) (fs : List Fld)
     (hn : mkeysNodup (shapeFields S L full) = true) (hm : Fld.nested n o sh own fs ∈ full)
@@ -560,53 +551,121 @@ theorem c07_subDeser_shape (S : StrFns) (L : List Mapper) (full : List Fld) (n :
   have hl2 := c07_lookupR_shape_nest S L full n o sh own fs hn hm
   simp [subDeser, hl, c07_trackOK ht, nestName, hl2]
 
+/-! ### `camel_case_convert`: the deserializer applies `TO_CAMELCASE` once more per level -/
+
+theorem c07_stepKey_camel_idem (S : StrFns) (hc : ∀ s, S.camel (S.camel s) = S.camel s) (a : String)
+    (v : MV) : stepKey S .camel a (stepKey S .camel a v) = stepKey S .camel a v := by
+  cases v <;> simp [stepKey, mapsTo, applyKey, hc]
+
+theorem c07_keyOf_replicate (S : StrFns) (hc : ∀ s, S.camel (S.camel s) = S.camel s) (X : List Mapper)
+    (a : String) : ∀ j, keyOf S (X ++ List.replicate (j + 1) .camel) a = keyOf S (X ++ [.camel]) a
+  | 0 => by simp
+  | j + 1 => by
+    have : X ++ List.replicate (j + 1 + 1) Mapper.camel = (X ++ List.replicate (j + 1) .camel) ++ [.camel] := by
+      rw [List.replicate_succ' (n := j + 1), List.append_assoc]
+    rw [this, c07_keyOf_append, c07_keyOf_replicate S hc X a j, c07_keyOf_append,
+      c07_stepKey_camel_idem S hc]
+
+theorem c07_camelRel_keyOf (S : StrFns) (camel : Bool) (hc : camel = true → ∀ s, S.camel (S.camel s) = S.camel s)
+    (Ls Ld : List Mapper) (h : CamelRel camel Ls Ld) (a : String) : keyOf S Ld a = keyOf S Ls a := by
+  unfold CamelRel at h
+  cases camel with
+  | false => simp at h; rw [h]
+  | true =>
+    simp only [if_true] at h
+    obtain ⟨X, j, h1, h2⟩ := h
+    rw [h1, h2, c07_keyOf_replicate S (hc rfl)]
+
+theorem c07_enumsOf_replicate_camel (j : Nat) :
+    enumsOf (List.replicate j Mapper.camel) = List.replicate j Mapper.camel := by
+  induction j with
+  | zero => rfl
+  | succ j ih => simp [List.replicate_succ, enumsOf, isEnumMapper] at ih ⊢
+
+theorem c07_camelRel_next (camel : Bool) (Ls Ld own : List Mapper) (h : CamelRel camel Ls Ld) :
+    CamelRel camel (own ++ enumsOf Ls) (own ++ enumsOf Ld ++ camelTail camel) := by
+  unfold CamelRel at h ⊢
+  cases camel with
+  | false => simp at h ⊢; simp [camelTail, h]
+  | true =>
+    simp only [if_true] at h ⊢
+    obtain ⟨X, j, h1, h2⟩ := h
+    refine ⟨own ++ enumsOf X, j + 1, ?_, ?_⟩
+    · rw [h1, c07_enumsOf_append]; simp [enumsOf, isEnumMapper]
+    · rw [h2, c07_enumsOf_append, c07_enumsOf_replicate_camel, camelTail]
+      simp only [if_true, List.append_assoc]
+      rw [← List.replicate_succ' (n := j + 1)]
+
+theorem c07_camelRel_plain (camel : Bool) (Ls Ld : List Mapper) (h : CamelRel camel Ls Ld)
+    (hp : Ld.all plainMapper = true) : Ls.all plainMapper = true := by
+  unfold CamelRel at h
+  cases camel with
+  | false => simp at h; rw [← h]; exact hp
+  | true =>
+    simp only [if_true] at h
+    obtain ⟨X, j, h1, h2⟩ := h
+    rw [h2, List.all_append, and_true_iff'] at hp
+    rw [h1, List.all_append, hp.1]; rfl
+
+theorem c07_camelRel_top (camel : Bool) (own : List Mapper) (ov : Option MDict) :
+    CamelRel camel (effList own ov camel) (effList own ov camel) := by
+  unfold CamelRel
+  cases camel with
+  | false => simp
+  | true => exact ⟨effList own ov false, 0, by simp [effList], by simp [effList]⟩
+
 mutual
-theorem c07_sync_fields (S : StrFns) :
-    ∀ (sub full : List Fld) (ms : MDict) (L : List Mapper) (kvs : List (String × J)),
-      L.all plainMapper = true → mkeysNodup (shapeFields S L full) = true → AgreesFs S ms L sub →
-      (∀ f ∈ sub, f ∈ full) → (∀ f ∈ sub, regionNested S L f = true) →
-      rtFields S false (levelDomE S) ms (shapeFields S L full) sub kvs = true →
-      rtFields S false (levelOK S) ms (shapeFields S L full) sub kvs = true
-  | [], _, _, _, kvs, _, _, _, _, _, h => by
+theorem c07_sync_fields (S : StrFns) (camel : Bool)
+    (hc : camel = true → ∀ s, S.camel (S.camel s) = S.camel s) :
+    ∀ (sub full : List Fld) (ms : MDict) (Ls Ld : List Mapper) (kvs : List (String × J)),
+      CamelRel camel Ls Ld →
+      Ld.all plainMapper = true → mkeysNodup (shapeFields S Ld full) = true → AgreesFs S ms Ls sub →
+      (∀ f ∈ sub, f ∈ full) → regionFs S camel Ld sub = true →
+      rtFields S camel (levelDomE S) ms (shapeFields S Ld full) sub kvs = true →
+      rtFields S camel (levelOK S) ms (shapeFields S Ld full) sub kvs = true
+  | [], _, _, _, _, kvs, _, _, _, _, _, _, h => by
     cases kvs with
     | nil => simp [rtFields]
     | cons a b => simp [rtFields] at h
-  | f :: sub, full, ms, L, kvs, hp, hn, ha, hs, hr, h => by
+  | f :: sub, full, ms, Ls, Ld, kvs, hrel, hp, hn, ha, hs, hr, h => by
     cases kvs with
     | nil => simp [rtFields] at h
     | cons p rest =>
       simp only [AgreesFs] at ha
+      simp only [regionFs, and_true_iff'] at hr
       simp only [rtFields, and_true_iff'] at h ⊢
-      exact ⟨c07_sync_fld S f full ms L p hp hn ha.1 (hs f (List.mem_cons_self ..))
-          (hr f (List.mem_cons_self ..)) h.1,
-        c07_sync_fields S sub full ms L rest hp hn ha.2 (fun g hg => hs g (List.mem_cons_of_mem _ hg))
-          (fun g hg => hr g (List.mem_cons_of_mem _ hg)) h.2⟩
-theorem c07_sync_fld (S : StrFns) :
-    ∀ (f : Fld) (full : List Fld) (ms : MDict) (L : List Mapper) (p : String × J),
-      L.all plainMapper = true → mkeysNodup (shapeFields S L full) = true → AgreesF S ms L f →
-      f ∈ full → regionNested S L f = true →
-      rtFld S false (levelDomE S) ms (shapeFields S L full) f p = true →
-      rtFld S false (levelOK S) ms (shapeFields S L full) f p = true
-  | .scalar n o, _, _, _, _, _, _, _, _, _, h => by simpa [rtFld] using h
-  | .nested n o sh own fs, full, ms, L, p, hp, hn, ha, hm, hr, h => by
-    simp only [regionNested, and_true_iff'] at hr
-    obtain ⟨⟨⟨⟨htrack, hown⟩, hne⟩, hpre⟩, hreagg⟩ := hr
+      exact ⟨c07_sync_fld S camel hc f full ms Ls Ld p hrel hp hn ha.1 (hs f (List.mem_cons_self ..))
+          hr.1 h.1,
+        c07_sync_fields S camel hc sub full ms Ls Ld rest hrel hp hn ha.2
+          (fun g hg => hs g (List.mem_cons_of_mem _ hg)) hr.2 h.2⟩
+theorem c07_sync_fld (S : StrFns) (camel : Bool)
+    (hc : camel = true → ∀ s, S.camel (S.camel s) = S.camel s) :
+    ∀ (f : Fld) (full : List Fld) (ms : MDict) (Ls Ld : List Mapper) (p : String × J),
+      CamelRel camel Ls Ld →
+      Ld.all plainMapper = true → mkeysNodup (shapeFields S Ld full) = true → AgreesF S ms Ls f →
+      f ∈ full → regionF S camel Ld f = true →
+      rtFld S camel (levelDomE S) ms (shapeFields S Ld full) f p = true →
+      rtFld S camel (levelOK S) ms (shapeFields S Ld full) f p = true
+  | .scalar n o, _, _, _, _, _, _, _, _, _, _, _, h => by simpa [rtFld] using h
+  | .nested n o sh own fs, full, ms, Ls, Ld, p, hrel, hp, hn, ha, hm, hr, h => by
+    simp only [regionF, and_true_iff'] at hr
+    obtain ⟨⟨⟨⟨⟨⟨htrack, hown⟩, hne⟩, hpre⟩, hreagg⟩, hnodc⟩, hregion⟩ := hr
     have hne' : fs ≠ [] := by intro e; subst e; simp at hne
     simp only [AgreesF] at ha
     obtain ⟨_, q, hq, hrec⟩ := ha
     have hsub : subSer ms n = q := by simp [subSer, hq]
-    have hL' : nestedList own n L = own ++ enumsOf L := by
-      simp [nestedList, c07_plain_filterMap_through n L hp]
-    rw [hL'] at hrec
-    have hhand := c07_handed_shape S L own fs hown hpre
-    have hM' : aggregate S false own fs (subDeser (shapeFields S L full) n) false
-        = shapeFields S (own ++ enumsOf L) fs := by
-      rw [c07_subDeser_shape S L full n o sh own fs hn hm htrack, hhand,
-        c07_nested_aggregate S _ own fs hne' hreagg]
-    have hplain' : (own ++ enumsOf L).all plainMapper = true := by
-      rw [List.all_append, hown, c07_enumsOf_plain]; rfl
-    have hreagg' := hreagg
-    simp only [reaggOK, and_true_iff'] at hreagg'
+    have hLs' : nestedList own n Ls = own ++ enumsOf Ls := by
+      simp [nestedList, c07_plain_filterMap_through n Ls (c07_camelRel_plain camel Ls Ld hrel hp)]
+    rw [hLs'] at hrec
+    have hhand := c07_handed_shape S Ld own fs hown hpre
+    have hM' : aggregate S false own fs (subDeser (shapeFields S Ld full) n) camel
+        = shapeFields S (own ++ enumsOf Ld ++ camelTail camel) fs := by
+      rw [c07_subDeser_shape S Ld full n o sh own fs hn hm htrack, hhand,
+        c07_nested_aggregate S _ own fs camel hne' hreagg hnodc]
+    have hplain' : (own ++ enumsOf Ld ++ camelTail camel).all plainMapper = true := by
+      rw [List.all_append, List.all_append, hown, c07_enumsOf_plain]
+      cases camel <;> rfl
+    have hrel' := c07_camelRel_next camel Ls Ld own hrel
     simp only [rtFld, and_true_iff'] at h ⊢
     refine ⟨h.1, ?_⟩
     rw [hM', hsub] at h ⊢
@@ -615,17 +674,105 @@ theorem c07_sync_fld (S : StrFns) :
     cases y with
     | obj kvs =>
       simp only [rtObj, and_true_iff'] at hy ⊢
-      have hrt := c07_sync_fields S fs fs q (own ++ enumsOf L) kvs hplain' hreagg'.1 hrec
-        (fun g hg => hg)
-        (fun g hg => c07_regionNested_of_reaggF S _ fs g (c07_reaggFs_mem S _ fs fs hreagg'.2 g hg)) hy.2
+      have hrt := c07_sync_fields S camel hc fs fs q _ _ kvs hrel' hplain' hnodc hrec
+        (fun g hg => hg) hregion hy.2
       refine ⟨c07_level_of_lookups S q _ false kvs hy.1 ?_, hrt⟩
       intro e he
-      obtain ⟨fl, hfl, hname⟩ := c07_rtFields_names S false _ _ _ fs kvs hy.2 e he
-      rw [← hname, c07_lookupR_shape_fld S _ fs fl hreagg'.1 hfl, c07_agrees_lookup S q _ fs hrec fl hfl]
+      obtain ⟨fl, hfl, hname⟩ := c07_rtFields_names S camel _ _ _ fs kvs hy.2 e he
+      rw [← hname, c07_lookupR_shape_fld S _ fs fl hnodc hfl, c07_agrees_lookup S q _ fs hrec fl hfl]
+      exact congrArg some (c07_camelRel_keyOf S camel hc _ _ hrel' fl.name)
     | null => simp [rtObj] at hy
     | int i => simp [rtObj] at hy
     | str s => simp [rtObj] at hy
     | arr xs => simp [rtObj] at hy
 end
+
+/-! ### the ASCII `_convert_to_camelcase` is idempotent (its result has no underscore) -/
+
+theorem c07_toNat_ofNat (n : Nat) (h : n < 0xd800) : (Char.ofNat n).toNat = n := by
+  have hv : n.isValidChar := Or.inl h
+  simp [Char.ofNat, hv, Char.ofNatAux, Char.toNat]
+
+theorem c07_upA_ne (c : Char) : upA c = '_' → c = '_' := by
+  unfold upA
+  split
+  · rename_i hl
+    intro he
+    have h1 : 97 ≤ c.toNat ∧ c.toNat ≤ 122 := by
+      simp only [isLowerA, Bool.and_eq_true, decide_eq_true_eq] at hl
+      exact ⟨hl.1, hl.2⟩
+    have := congrArg Char.toNat he
+    rw [c07_toNat_ofNat _ (by omega)] at this
+    have h95 : ('_' : Char).toNat = 95 := by decide
+    omega
+  · exact id
+theorem c07_loA_ne (c : Char) : loA c = '_' → c = '_' := by
+  unfold loA
+  split
+  · rename_i hl
+    intro he
+    have h1 : 65 ≤ c.toNat ∧ c.toNat ≤ 90 := by
+      simp only [isUpperA, Bool.and_eq_true, decide_eq_true_eq] at hl
+      exact ⟨hl.1, hl.2⟩
+    have := congrArg Char.toNat he
+    rw [c07_toNat_ofNat _ (by omega)] at this
+    have h95 : ('_' : Char).toNat = 95 := by decide
+    omega
+  · exact id
+
+theorem c07_title_no_us : ∀ (b : Bool) (cs : List Char), '_' ∉ cs → '_' ∉ titleChars b cs
+  | _, [], _ => by simp [titleChars]
+  | b, c :: cs, h => by
+    simp only [List.mem_cons, not_or] at h
+    have hc : c ≠ '_' := fun e => h.1 e.symm
+    simp only [titleChars]
+    split
+    · simp only [List.mem_cons, not_or]
+      refine ⟨?_, c07_title_no_us true cs h.2⟩
+      split
+      · exact fun e => hc (c07_loA_ne c e.symm)
+      · exact fun e => hc (c07_upA_ne c e.symm)
+    · simp only [List.mem_cons, not_or]
+      exact ⟨h.1, c07_title_no_us false cs h.2⟩
+
+theorem c07_split_pieces (sep : Char) : ∀ (cs acc : List Char), sep ∉ acc →
+    ∀ w ∈ splitOnChar sep acc cs, sep ∉ w
+  | [], acc, ha, w, hw => by
+    simp only [splitOnChar, List.mem_singleton] at hw
+    subst hw; simpa using ha
+  | c :: cs, acc, ha, w, hw => by
+    simp only [splitOnChar] at hw
+    split at hw
+    · rcases List.mem_cons.mp hw with hw | hw
+      · subst hw; simpa using ha
+      · exact c07_split_pieces sep cs [] (by simp) w hw
+    · rename_i hne
+      refine c07_split_pieces sep cs (c :: acc) ?_ w hw
+      simp only [List.mem_cons, not_or]
+      exact ⟨fun e => hne (by simp [e]), ha⟩
+
+theorem c07_split_none (sep : Char) : ∀ (cs acc : List Char), sep ∉ cs →
+    splitOnChar sep acc cs = [acc.reverse ++ cs]
+  | [], acc, _ => by simp [splitOnChar]
+  | c :: cs, acc, h => by
+    simp only [List.mem_cons, not_or] at h
+    have : (c == sep) = false := by
+      rw [beq_eq_false_iff_ne]; exact fun e => h.1 e.symm
+    simp [splitOnChar, this, c07_split_none sep cs (c :: acc) h.2]
+
+theorem c07_camelAscii_idem (s : String) : camelAscii (camelAscii s) = camelAscii s := by
+  have hp := c07_split_pieces '_' s.toList [] (by simp)
+  unfold camelAscii
+  cases hs : splitOnChar '_' [] s.toList with
+  | nil => simp [hs]
+  | cons w ws =>
+    rw [hs] at hp
+    simp only
+    have hno : '_' ∉ w ++ (ws.map (titleChars false)).flatten := by
+      simp only [List.mem_append, List.mem_flatten, List.mem_map, not_or, not_exists, not_and]
+      refine ⟨hp w (List.mem_cons_self ..), ?_⟩
+      rintro l ⟨x, hx, rfl⟩
+      exact c07_title_no_us false x (hp x (List.mem_cons_of_mem _ hx))
+    simp [c07_split_none '_' _ [] hno]
 
 end Typedpy.Mappers
